@@ -13,6 +13,7 @@
 //! * limit  — label-length vectors around 63 / 255 through every constructor and combinator
 
 mod common;
+mod laws;
 mod limits;
 mod pairs;
 mod textfam;
@@ -71,9 +72,12 @@ fn main() {
             "pair" => pairs::replay_pair(&case, l),
             "triple" => pairs::replay_triple(&case, l),
             "label-pair" => pairs::replay_label_pair(&case, l),
+            "law" => laws::replay_unary(&case, l),
+            "law-pair" => laws::replay_pair(&case, l),
             "wire" => wirefam::replay_wire(&case, l),
             "refbytes" => wirefam::replay_refbytes(&case, l),
             "text" => textfam::replay_text(&case, l),
+            "origin" => textfam::replay_origin(&case, l),
             "limit" | "limit-unicode" => limits::replay_limit(&case, l),
             "construct" => {
                 let r = name_from_json(&case["name"]);
@@ -92,7 +96,7 @@ fn main() {
     ctx.set_rule(
         "E-ENUM. Octet alphabet O = {00 - . * 0 A Z [ \\ _ a z 7f 80 ff} (thorough) / {00 . @ A Z [ ` a z { 80 ff} (quick); labels = all strings over O of length 1..2 plus fill \
          labels of 62/63 octets; U1 = all absolute names of 0..2 labels over those labels; U2 = all names of 0..2 labels over \
-         the 9-octet sub-alphabet {00 . A Z [ a z 80 ff}, absolute AND relative; thorough adds U3 = 0..3 labels over {00 A [ a ff}. \
+         the 9-octet sub-alphabet {00 . A Z [ a z 80 ff} (quick: 7 octets {00 . A Z [ a ff}), absolute AND relative; UL = all names of 0..3 labels over {* *a a* ** a A b a.b 00 *x63}, absolute and relative; thorough adds U3 = 0..3 labels over {00 A [ a ff}. law family: on every name of U1, U2, UL: num_labels = labels - [first label is `*`], is_wildcard, is_root, iter/rev/len, len() = wire length - 1, to_lowercase, LowerName round trips and accessors, trim_to(k) for every k, base_name, into_wildcard; on every ordered pair of U2 and UL: eq_case, cmp_case (canonical order without folding), eq_ignore_root(_case), zone_of / zone_of_case / LowerName::zone_of = suffix relation. \
          pair family: all ordered pairs of labels (Label eq/hash/cmp); ALL ordered pairs of U1 (Name eq/hash/cmp; thorough: all clauses), of U2 (all clauses incl. \
          LowerName/RrKey eq/hash/cmp, absolute x relative) and of U3, oracle = vref::name (ASCII-folded label identity + flag; RFC 4034 \
          6.1 comparator via dense ranks); triple family: transitivity over all triples of a 1-label/2-label absolute+relative \
@@ -101,7 +105,7 @@ fn main() {
          uncompressed, lowercase} through Name::emit and Name::read, judged by vref::wire::read_name + label identity incl. case \
          + cursor; hickory's decoder on reference-made literal and pointer encodings. text family: all host-style names (labels \
          over {a Z 0 _ .} with interior '-', 63-octet labels, leading '*' label) of 1..3 labels, absolute and relative: \
-         from_ascii(to_ascii(n)) identical octets, from_str(to_string(n)) == n. limit family: label-length vectors ({62,63,64}^0..4 \
+         from_ascii(to_ascii(n)) identical octets, from_str(to_string(n)) == n. wire family also for every RELATIVE name of U2 (labels and case must come back; the decoded name is absolute). origin family: Name::parse(text, origin) for every host-style local name of 0..2 labels over {a Z 0 _a a_b a.b a-b x*63 * xn--zs9h} (absolute, relative, empty) and the free-standing '@' x 21 origin shapes (none, root, z., Z.a., relative-flag origins, *.z., odd octets, 127 labels, wire lengths 255..251 and 195): Ok results obey the limits, carry local++origin (resp. the origin for '@', the local name if absolute) and the absolute flag; 15 IDNA-looking host-style labels (valid/invalid punycode, upper-case prefix, 63 octets) x 3 positions x 2 flags through the text clauses. limit family: label-length vectors ({62,63,64}^0..4 \
          padded to wire totals 253..257, up to 128 labels, single labels up to 300) through from_labels, read (literal, pointer, \
          pointer chain), from_ascii/from_utf8/parse/from_str(+origin, escapes), append_label, prepend_label, append_name, \
          append_domain, into_wildcard, to_lowercase, base_name, trim_to: Err, or a name with every label 1..63 and wire length \
@@ -119,9 +123,19 @@ fn main() {
     let u1 = pairs::universe(&ctx, fq(names_over(&full_labels, 2)));
     pairs::run_pairs(&ctx, &u1, thorough, "u1_absolute_full_alphabet");
 
-    let sub_labels = labels_over(&SUB9, true);
+    let sub_labels = if thorough { labels_over(&SUB9, true) } else { labels_over(&SUB7, true) };
     let u2 = pairs::universe(&ctx, both(names_over(&sub_labels, 2)));
     pairs::run_pairs(&ctx, &u2, true, "u2_absolute_and_relative");
+    pairs::run_unary_laws(&ctx, &u2);
+    pairs::run_unary_laws(&ctx, &u1);
+    // UL: wildcard-shaped labels at every position, 0..3 labels, absolute and relative (the law
+    // family's own universe: `*` first / interior / last, labels that merely start or end with `*`)
+    let star_labels: Vec<Vec<u8>> = vec![
+        b"*".to_vec(), b"*a".to_vec(), b"a*".to_vec(), b"**".to_vec(), b"a".to_vec(), b"A".to_vec(), b"b".to_vec(), b"a.b".to_vec(), vec![0x00], vec![b'*'; 63],
+    ];
+    let ul = pairs::universe(&ctx, both(names_over(&star_labels, 3)));
+    pairs::run_pairs(&ctx, &ul, true, "ul_wildcard_shapes");
+    pairs::run_unary_laws(&ctx, &ul);
 
     if thorough {
         let l5 = labels_over(&SUB5, true);
@@ -165,19 +179,47 @@ fn main() {
                         if m == wirefam::Mode::Lowercase && s != wirefam::Scen::Alone {
                             continue;
                         }
-                        wirefam::run_wire_case(labels, h, off, s, m, buf, l);
+                        wirefam::run_wire_case(labels, h, false, off, s, m, buf, l);
                     }
                 }
                 for f in wirefam::forms(labels.len()) {
                     wirefam::run_refbytes_case(labels, h, off, f, buf, l);
                 }
                 if i % 60013 == 0 {
-                    l.sample(wirefam::wire_case_json(labels, off, scens[(i % scens.len() as u64) as usize], wirefam::Mode::Compressed));
+                    l.sample(wirefam::wire_case_json(labels, off, scens[(i % scens.len() as u64) as usize], wirefam::Mode::Compressed, false));
                 }
             },
         );
     }
 
+    // relative names: emit writes the labels plus the root octet; the labels (incl. case) must come back
+    {
+        let rels: Vec<(Labels, hickory_proto::rr::Name)> = u2.iter().filter(|e| !e.r.fqdn).map(|e| (e.r.labels.clone(), e.h.clone())).collect();
+        let scens = wirefam::scenarios();
+        let od = Odometer::new(&[rels.len() as u64, wirefam::OFFSETS.len() as u64]);
+        ctx.set("wire_relative_names", json!(rels.len()));
+        ctx.par_run_init(
+            od.space(),
+            64,
+            |_| Vec::<u8>::with_capacity(0x4200),
+            |i, l, buf| {
+                let d = od.get(i);
+                let (labels, h) = &rels[d[0] as usize];
+                let off = wirefam::OFFSETS[d[1] as usize];
+                for &s in &scens {
+                    for m in wirefam::MODES {
+                        if m == wirefam::Mode::Lowercase && s != wirefam::Scen::Alone {
+                            continue;
+                        }
+                        wirefam::run_wire_case(labels, h, true, off, s, m, buf, l);
+                    }
+                }
+                if i % 20011 == 3 {
+                    l.sample(wirefam::wire_case_json(labels, off, wirefam::Scen::Alone, wirefam::Mode::Compressed, true));
+                }
+            },
+        );
+    }
     ctx.set("wall_after_wire_s", json!(ctx.elapsed_s()));
     // ------------------------------------------------------------------ text family
     {
@@ -226,6 +268,70 @@ fn main() {
         });
     }
 
+    // ------------------------------------------------------------------ parse x origin shapes, IDNA-looking labels
+    {
+        let hl: Vec<Vec<u8>> = vec![
+            b"a".to_vec(), b"Z".to_vec(), b"0".to_vec(), b"_a".to_vec(), b"a_b".to_vec(), b"a.b".to_vec(), b"a-b".to_vec(), vec![b'x'; 63], b"*".to_vec(), b"xn--zs9h".to_vec(),
+        ];
+        let mut locals: Vec<(String, Option<RefName>)> = vec![("@".to_string(), None)];
+        for labels in names_over(&hl, 2) {
+            for f in [true, false] {
+                let r = RefName::new(labels.clone(), f);
+                if let Some(t) = vref::name::present_host(&r) {
+                    locals.push((t, Some(r)));
+                }
+            }
+        }
+        let mut origins: Vec<Option<RefName>> = vec![
+            None,
+            Some(RefName::new(vec![], true)),
+            Some(RefName::new(vec![b"z".to_vec()], true)),
+            Some(RefName::new(vec![b"Z".to_vec(), b"a".to_vec()], true)),
+            Some(RefName::new(vec![b"z".to_vec()], false)),
+            Some(RefName::new(vec![], false)),
+            Some(RefName::new(vec![b"*".to_vec(), b"z".to_vec()], true)),
+            Some(RefName::new(vec![b"a.b".to_vec(), vec![0x00, 0xff]], true)),
+            Some(RefName::new(limits::fill(&vec![1; 127]), true)),
+        ];
+        for last in [61usize, 60, 59, 58, 57, 1] {
+            origins.push(Some(RefName::new(limits::fill(&[63, 63, 63, last]), true)));
+            origins.push(Some(RefName::new(limits::fill(&[63, 63, 63, last]), false)));
+        }
+        let od = Odometer::new(&[locals.len() as u64, origins.len() as u64]);
+        ctx.set("origin_cases", json!(od.space()));
+        ctx.par_run(od.space(), 32, |i, l| {
+            let d = od.get(i);
+            let (t, r) = &locals[d[0] as usize];
+            let o = &origins[d[1] as usize];
+            textfam::run_origin_case(t, r.as_ref(), o.as_ref(), l);
+            if i % 1511 == 9 {
+                l.sample(textfam::origin_case_json(t, o.as_ref()));
+            }
+        });
+        // IDNA-looking host-style labels (letters, digits, interior hyphens): valid punycode, invalid
+        // punycode, upper-case prefix, punycode of an all-ASCII string, maximal length
+        let idna: Vec<Vec<u8>> = vec![
+            b"xn--zs9h".to_vec(), b"XN--ZS9H".to_vec(), b"Xn--zs9h".to_vec(), b"xn--a".to_vec(), b"xn--mnchen-3ya".to_vec(), b"xn--MNCHEN-3YA".to_vec(),
+            b"xn--0".to_vec(), b"xn--abc-def".to_vec(), b"xn--a-a".to_vec(), b"xn--80ak6aa92e".to_vec(), b"xn--nxasmq6b".to_vec(), b"xn--nxasmm1c".to_vec(),
+            b"ab--c".to_vec(), b"a--".iter().chain(b"b".iter()).cloned().collect(),
+            { let mut v = b"xn--".to_vec(); v.extend(std::iter::repeat(b'a').take(59)); v },
+        ];
+        ctx.with_local(|l| {
+            for lab in &idna {
+                for shape in 0..3 {
+                    let labels: Labels = match shape {
+                        0 => vec![lab.clone()],
+                        1 => vec![lab.clone(), b"z".to_vec()],
+                        _ => vec![b"a".to_vec(), lab.clone()],
+                    };
+                    for f in [true, false] {
+                        textfam::run_text_case(&RefName::new(labels.clone(), f), true, l);
+                        l.outcome("text:idna-looking-label-case");
+                    }
+                }
+            }
+        });
+    }
     ctx.set("wall_after_text_s", json!(ctx.elapsed_s()));
     // ------------------------------------------------------------------ limit family
     {
@@ -247,6 +353,16 @@ fn main() {
         "wire:ok:pointer-emitted",
         "wire:ok:pointer-emitted-high-offset",
         "wire:ok:no-pointer",
+        "wire:ok:relative-name",
+        "law:unary:ok",
+        "origin:ok:at:absolute-origin",
+        "origin:ok:relative:absolute-origin",
+        "origin:ok:relative:root-origin",
+        "origin:ok:absolute:absolute-origin",
+        "origin:err:relative:absolute-origin",
+        "text:idna-looking-label-case",
+        "law:unary:ok:wildcard",
+        "law:pair:zone_of-true",
         "refbytes:ok:pointer",
         "text:ascii-roundtrip:ok",
         "text:display-fromstr:ok",
